@@ -788,6 +788,20 @@ fn handle(req: &Value, st: &mut State) -> Value {
         "sqlparse" => op_sqlparse(req),
         "tokens" => op_tokens(req),
         "stress" => op_stress(req),
+        "debuglog" => {
+            // the compiler's own per-stage event log of one compilation (prqlc::debug)
+            let src = req.get("src").and_then(|v| v.as_str()).unwrap_or("");
+            let opts = parse_options(req).unwrap_or_default();
+            prqlc::debug::log_start();
+            let (r, _) = guarded(|| prqlc::compile(src, &opts));
+            let log = prqlc::debug::log_finish();
+            let logv = log.map(|l| serde_json::to_value(&l).unwrap_or(Value::Null)).unwrap_or(Value::Null);
+            match r {
+                Ok(Ok(s)) => json!({"sql": s, "log": logv}),
+                Ok(Err(e)) => json!({"errors": errs_json(&e), "log": logv}),
+                Err(p) => json!({"panic": p, "log": logv}),
+            }
+        }
         "outcome" => {
             let src = req.get("src").and_then(|v| v.as_str()).unwrap_or("");
             match parse_options(req) {
